@@ -142,7 +142,10 @@ deriving Repr, DecidableEq
 
 /-- one operation: the new database and what the caller is told -/
 def step (db : DB) : Op → DB × Outcome
-  | .create d => (db ++ [d], .ok)
+  | .create d =>
+    -- a document's identifier is a function of its initial content: a create that addresses an existing document
+    -- (deleted or not, readable by the requester or not) fails and writes nothing
+    if (find db d.label).isSome then (db, .error) else (db ++ [d], .ok)
   | .grant l t r =>
     match find db l with
     | some d => if d.registered then (modify db l (fun d => { d with grants := (t, r) :: d.grants.filter (· != (t, r)) }), .ok)
@@ -164,6 +167,17 @@ def step (db : DB) : Op → DB × Outcome
     | some d => if !d.deleted && canDelete w d then (modify db l (fun d => { d with deleted := true }), .ok)
                 else (db, .denied)
     | none => (db, .denied)
+
+/-- the create as it was before the repair 5526613: existence is judged through the requester's read permission, and
+    a requester without identity passes the registration, so its create over a document it may not read goes on to
+    write the initial content over the document's fields -/
+def createPinned (w : Who) (db : DB) (d : Doc) : DB × Outcome :=
+  match find db d.label with
+  | some e =>
+    if canRead w e then (db, .error)
+    else if w == .anon then (modify db d.label (fun e => { e with name := d.name }), .ok)
+    else (db, .error)
+  | none => (db ++ [d], .ok)
 
 def run (db : DB) (ops : List Op) : DB := ops.foldl (fun db op => (step db op).1) db
 
